@@ -418,7 +418,88 @@ func c08FieldAt(cs c08Case) string {
 	return "header"
 }
 
+// c08Soak: ONE long-lived proxy is fed n hostile TCP connections one after the other (the E3 menu,
+// cycled; every connection is closed by the peer afterwards if the proxy has not closed it) and a few
+// hostile datagrams in between; after every 100 connections a sentinel request over a NEW TCP
+// connection and one over UDP must still be relayed.
+func c08Soak(c *Ctx, n int) {
+	corpus := c08Corpus()
+	subs := c08Subs()
+	w := StartRelayWorld(SimOpts{}, c08Cfg)
+	defer w.Close()
+	sentinel := func(k int, tcp bool) bool {
+		sent := MsgSpec{Method: "OPTIONS", RURI: "sip:bob@svc.example.com", Vias: []string{fmt.Sprintf("SIP/2.0/UDP 127.0.0.8:5060;branch=z9hG4bKsoak%d%v", k, tcp)}, From: "<sip:s@ua.example.net>;tag=s", To: "<sip:bob@svc.example.com>", CallID: fmt.Sprintf("soak-sentinel-%d-%v", k, tcp), CSeq: "1 OPTIONS", Body: []byte("sentinel-body")}.Build()
+		w.Observe()
+		if tcp {
+			cl, err := w.S.TCPDial("127.0.0.8:0", "127.0.0.1:5062")
+			if err != nil {
+				return false
+			}
+			w.S.Run()
+			w.SendTCP(cl, sent.Render())
+			defer cl.Close()
+		} else {
+			w.SendUDP("127.0.0.8:5060", "127.0.0.1:5060", sent.Render())
+		}
+		for _, p := range w.Observe().Pkts {
+			if bytes.Contains(p.Data, []byte("Call-ID: soak-sentinel-")) && bytes.HasSuffix(p.Data, []byte("sentinel-body")) {
+				return true
+			}
+		}
+		return false
+	}
+	k := 0
+	for i := 0; k < n; i++ {
+		if c.Expired() {
+			return
+		}
+		ci, si := i%len(corpus), (i/len(corpus))%len(subs)
+		hostile := subs[si].Apply(corpus[ci].Clone())
+		if hostile == nil {
+			continue
+		}
+		k++
+		cl, err := w.S.TCPDial("127.0.0.9:0", "127.0.0.1:5062")
+		if err == nil {
+			w.S.Run()
+			w.SendTCP(cl, hostile)
+			if k%3 == 0 {
+				cl.Reset() // some peers vanish without a clean close
+			} else {
+				cl.Close()
+			}
+			w.S.Run()
+		}
+		if k%7 == 0 && len(hostile) < 65000 {
+			w.SendUDP("127.0.0.9:5060", "127.0.0.1:5060", hostile)
+		}
+		w.Observe()
+		c.Res.Executions++
+		if vd := w.S.Verdict(); vd != "" {
+			c.Violate("crash|soak", "crash", fmt.Sprintf("soak run, hostile TCP connection %d (%s on corpus message %d): %s\n%s", k, subs[si].Name, ci, vd, w.S.CrashDetail()), map[string]int{"soak": n})
+			return
+		}
+		if k%100 == 0 || k == n {
+			c.Res.Evaluations++
+			c.Res.Nontrivial++
+			for _, tcp := range []bool{true, false} {
+				if !sentinel(k, tcp) {
+					c.Violate("stops-serving|soak", "stops-serving", fmt.Sprintf("soak run: after %d hostile TCP connections (each closed again) a well-formed request over %s was no longer relayed to a backend", k, map[bool]string{true: "a new TCP connection", false: "UDP"}[tcp]), map[string]int{"soak": n})
+					return
+				}
+			}
+		}
+	}
+}
+
 func c08Run(c *Ctx) {
+	if c.Worker == 3%c.NWorkers && c.Resume == 0 {
+		n := 700
+		if c.Thorough() {
+			n = 5000
+		}
+		c08Soak(c, n)
+	}
 	corpus := c08Corpus()
 	subs := c08Subs()
 	var idx int64
@@ -515,7 +596,7 @@ func c08Run(c *Ctx) {
 
 func init() {
 	addCheck(&Check{ID: "C08", Level: "exploration", Journal: true, MemLimit: 6 << 30, StallS: 20,
-		Rule:   "complete enumerations over a 12-message corpus (requests of every path, responses, compact forms), each case on a fresh world with backends, static routes, a learned next hop, on UDP and on TCP (TCP also: after a valid request on the same connection, whose response arrives once the hostile bytes have been handled), followed by a sentinel request: (E1) every prefix (cut at every byte); (E2) every single-byte substitution, insertion (6-byte alphabet on 3 messages; thorough: 20-byte alphabet on all) and deletion at every offset; (E3) every field-level hostile substitution from per-field menus (Content-Length, Via sent-by, ports, missing mandatory headers, From/To/Route/Record-Route URIs, CSeq, Expires, status codes; thorough: every pair); (E4) size extremes up to 64 KiB; oracle: no panic in any proxy goroutine, no deadlock/stall, bytes allocated while handling the input <= 1 MiB + 256 x input length, the sentinel is relayed afterwards; workers run under an address-space limit with a write-ahead journal so that an unrecoverable runtime abort is attributed to its input; non-trivial = every case",
+		Rule:   "complete enumerations over a 12-message corpus (requests of every path, responses, compact forms), each case on a fresh world with backends, static routes, a learned next hop, on UDP and on TCP (TCP also: after a valid request on the same connection, whose response arrives once the hostile bytes have been handled), followed by a sentinel request: (E1) every prefix (cut at every byte); (E2) every single-byte substitution, insertion (6-byte alphabet on 3 messages; thorough: 20-byte alphabet on all) and deletion at every offset; (E3) every field-level hostile substitution from per-field menus (Content-Length, Via sent-by, ports, missing mandatory headers, From/To/Route/Record-Route URIs, CSeq, Expires, status codes; thorough: every pair); (E4) size extremes up to 64 KiB; (E5) a soak run: one long-lived proxy takes 700 (thorough 5000) hostile TCP connections one after the other, and after every 100 a sentinel over a new TCP connection and over UDP must be relayed; oracle: no panic in any proxy goroutine, no deadlock/stall, bytes allocated while handling the input <= 1 MiB + 256 x input length, the sentinel is relayed afterwards; workers run under an address-space limit with a write-ahead journal so that an unrecoverable runtime abort is attributed to its input; non-trivial = every case",
 		Assume: []string{"the coverage-guided half of the quantifier (arbitrary byte strings) belongs to another family and is replaced by the bounded exhaustive spaces above", "a peer that black-holes a TCP dial is outside what the simulation can decide"},
 		Run:    c08Run,
 		JournalSig: func(raw json.RawMessage) string {
@@ -524,6 +605,15 @@ func init() {
 			return strings.SplitN(c08Sig("x", cs, nil), "|", 2)[1]
 		},
 		Replay: func(c *Ctx, raw json.RawMessage) string {
+			var sk map[string]int
+			if json.Unmarshal(raw, &sk) == nil && sk["soak"] > 0 {
+				cc := &Ctx{ID: "C08x", Res: newResult(), vmap: map[string]*Violation{}, Deadline: c.Deadline, NWorkers: 1}
+				c08Soak(cc, sk["soak"])
+				if len(cc.Res.Violations) > 0 {
+					return cc.Res.Violations[0].Clause
+				}
+				return ""
+			}
 			var cs c08Case
 			json.Unmarshal(raw, &cs)
 			cl, _ := c08Eval(cs, c08Bytes(cs))
